@@ -82,3 +82,125 @@ Proof.
     rewrite andb_false_r. cbn [negb]. split; [reflexivity|]. destruct F as [F|F]; [exact F|contradiction].
 Qed.
 Print Assumptions hb_inactive_silent.
+
+(* ================= 7. Open() puts every heartbeat on the grid of the new SyncOffset ================= *)
+Definition resync_one (r:rnode) (i:Z) : rnode :=
+  let x := get_devx r i in
+  if ss_next (x_hb x) =? ss_disabled then r
+  else if ss_period (x_hb x) =? 0 then
+    with_devx r i {| x_pend_claim := x_pend_claim x; x_pend_prod := x_pend_prod x; x_pend_conf := x_pend_conf x;
+                     x_hb := ss_update_next 0 (r_sync r) (x_hb x); x_hb_seq := x_hb_seq x; x_rx := x_rx x |}
+  else
+    let '(rc, t) := millis64 r in
+    with_devx rc i {| x_pend_claim := x_pend_claim x; x_pend_prod := x_pend_prod x; x_pend_conf := x_pend_conf x;
+                      x_hb := ss_update_next t (r_sync rc) (x_hb x); x_hb_seq := x_hb_seq x; x_rx := x_rx x |}.
+Lemma resync_S k r i : resync_heartbeats (S k) r i = resync_heartbeats k (resync_one r i) (i + 1).
+Proof. cbn [resync_heartbeats]. unfold resync_one. cbv zeta. destruct (_ =? ss_disabled); [reflexivity|]. destruct (_ =? 0); [reflexivity|]. destruct (millis64 r). reflexivity. Qed.
+
+Definition resync_hb (r:rnode) (x:devx) : ssched :=
+  if ss_next (x_hb x) =? ss_disabled then x_hb x
+  else if ss_period (x_hb x) =? 0 then ss_update_next 0 (r_sync r) (x_hb x) else ss_update_next (snd (millis64 r)) (r_sync r) (x_hb x).
+Lemma devx_eta x : devx_with_hb x (x_hb x) (x_hb_seq x) = x.  Proof. destruct x. reflexivity. Qed.
+
+Lemma resync_one_ok r i : 0 <= i ->
+  rn (resync_one r i) = rn r /\ length (rx_dev (resync_one r i)) = length (rx_dev r) /\ r_sync (resync_one r i) = r_sync r /\
+  snd (millis64 (resync_one r i)) = snd (millis64 r) /\
+  (forall j, 0 <= j -> j <> i -> get_devx (resync_one r i) j = get_devx r j) /\
+  (i < Z.of_nat (length (rx_dev r)) -> get_devx (resync_one r i) i = devx_with_hb (get_devx r i) (resync_hb r (get_devx r i)) (x_hb_seq (get_devx r i))).
+Proof.
+  intros Hi. unfold resync_one, resync_hb. cbv zeta. set (x := get_devx r i).
+  destruct (ss_next (x_hb x) =? ss_disabled).
+  { repeat (split; [reflexivity|]). intros; subst x; destruct (get_devx r i); reflexivity. }
+  destruct (ss_period (x_hb x) =? 0).
+  { split; [reflexivity|]. split; [apply with_devx_length|]. split; [reflexivity|]. split; [apply millis64_snd_ext; reflexivity|].
+    split; [intros j Hj Hne; apply get_devx_with_devx_neq; lia|intros Hr; apply get_devx_with_devx; lia]. }
+  pose proof (millis64_rn r) as M1. pose proof (millis64_rx_dev r) as M2. pose proof (millis64_sync r) as M3. pose proof (millis64_idem r) as M4.
+  destruct (millis64 r) as [rc t]. cbn [fst snd] in *.
+  split; [exact M1|]. split; [rewrite with_devx_length, M2; reflexivity|]. split; [exact M3|].
+  split; [transitivity (snd (millis64 rc)); [apply millis64_snd_ext; reflexivity|rewrite M4; reflexivity]|].
+  split.
+  - intros j Hj Hne. rewrite get_devx_with_devx_neq by lia. unfold get_devx. rewrite M2. reflexivity.
+  - intros Hr. rewrite get_devx_with_devx by (rewrite M2; lia). rewrite M3. reflexivity.
+Qed.
+
+Lemma resync_ok : forall k r i, 0 <= i ->
+  let r' := resync_heartbeats k r i in
+  rn r' = rn r /\ length (rx_dev r') = length (rx_dev r) /\ r_sync r' = r_sync r /\ snd (millis64 r') = snd (millis64 r) /\
+  forall j, 0 <= j < Z.of_nat (length (rx_dev r)) ->
+    (j < i \/ i + Z.of_nat k <= j -> get_devx r' j = get_devx r j) /\
+    (i <= j < i + Z.of_nat k -> get_devx r' j = devx_with_hb (get_devx r j) (resync_hb r (get_devx r j)) (x_hb_seq (get_devx r j))).
+Proof.
+  induction k as [|k IH]; intros r i Hi; cbv zeta.
+  - cbn [resync_heartbeats]. do 4 (split; [reflexivity|]). intros j Hj. split; [reflexivity|]. cbn. lia.
+  - rewrite resync_S. destruct (resync_one_ok r i Hi) as (O1 & O2 & O3 & O4 & O5 & O6).
+    set (r1 := resync_one r i) in *.
+    specialize (IH r1 (i + 1) ltac:(lia)). cbv zeta in IH. destruct IH as (I1 & I2 & I3 & I4 & I5).
+    split; [congruence|]. split; [congruence|]. split; [congruence|]. split; [congruence|].
+    intros j Hj. specialize (I5 j ltac:(rewrite O2; exact Hj)). destruct I5 as [I5a I5b]. split.
+    + intros Hout. rewrite I5a by lia. apply O5; lia.
+    + intros Hin. destruct (Z.eq_dec j i) as [->|Hne].
+      * rewrite I5a by lia. apply O6. lia.
+      * rewrite I5b by lia. rewrite (O5 j ltac:(lia) Hne). unfold resync_hb. rewrite O3, O4. reflexivity.
+Qed.
+
+Lemma update_at_sync t nx : 0 <= t < TB ->
+  ss_update_next t t {| ss_next := nx; ss_offset := 10000; ss_period := c_DefaultHeartbeatInterval |} =
+  {| ss_next := t + 10000; ss_offset := 10000; ss_period := c_DefaultHeartbeatInterval |}.
+Proof.
+  intros Ht. rewrite TB_val in Ht. unfold ss_update_next. cbn [ss_period ss_offset]. unfold c_DefaultHeartbeatInterval. cbn [Z.eqb].
+  rewrite (u64_small (10000 + t)) by (rewrite M64_val; lia).
+  destruct (Z.gtb_spec (10000 + t) t); [|lia]. f_equal. lia.
+Qed.
+
+Theorem hb_open_resync : hb_open_resync_stmt.
+Proof.
+  unfold hb_open_resync_stmt. intros r r' ev Hn Hopen H3 Hlen Hsync.
+  unfold open_step in Hopen. cbv zeta in Hopen.
+  destruct (Z.eqb_spec (n_open (rn r)) 3) as [|_]; [contradiction|].
+  set (r0 := if n_open (rn r) =? 0 then with_open r 1 (r_open_sched r) else r) in *.
+  assert (L0: length (rx_dev r0) = length (n_devs (rn r0)) /\ n_open (rn r0) <> 3).
+  { unfold r0. destruct (n_open (rn r) =? 0); cbn; [split; [exact Hlen|discriminate]|split; assumption]. }
+  destruct L0 as [L0 N0].
+  destruct (n_open (rn r0) =? 1).
+  { destruct (negb _); [discriminate Hopen|]. inversion Hopen; subst r'. cbn in H3. discriminate. }
+  destruct (sched_is_time _ _ _); [|inversion Hopen; subst r'; cbn in H3; contradiction].
+  set (r1 := with_open r0 3 (r_open_sched r0)) in *.
+  pose proof (start_claim_all_st (length (n_devs (rn r1))) r1 0) as S.
+  destruct (start_claim_all (length (n_devs (rn r1))) r1 0) as [r2 ev2]. cbn [fst] in S.
+  assert (L2: length (rx_dev r2) = length (n_devs (rn r2))).
+  { destruct S as [(_ & _ & _ & _ & _ & A) (B & _)]. rewrite A, B. exact L0. }
+  pose proof (millis64_rn r2) as M1. pose proof (millis64_rx_dev r2) as M2. pose proof (millis64_idem r2) as M4.
+  destruct (millis64 r2) as [r2c t]. cbn [fst snd] in *.
+  set (r3 := with_sync r2c t) in *.
+  assert (T3: snd (millis64 r3) = t) by (transitivity (snd (millis64 r2c)); [apply millis64_snd_ext; reflexivity|rewrite M4; reflexivity]).
+  assert (L3: length (rx_dev r3) = length (n_devs (rn r3))) by (cbn [r3 with_sync rx_dev rn]; rewrite M1, M2; exact L2).
+  destruct (hb_clip (length (n_devs (rn r3))) r3 0 c_DefaultHeartbeatInterval 10000 ltac:(lia)) as (C1 & C2 & C3 & _ & _ & C6 & C7 & _).
+  cbv zeta in C7. rewrite T3 in C6, C7.
+  set (r4 := set_heartbeat_all (length (n_devs (rn r3))) r3 0 c_DefaultHeartbeatInterval 10000) in *.
+  destruct (resync_ok (length (n_devs (rn r4))) r4 0 ltac:(lia)) as (R1 & R2 & R3 & R4 & R5). cbv zeta in R5.
+  injection Hopen as <- _. change (r_sync r3) with t in C3.
+  rewrite R3, C3 in *. rewrite R4, C6. split; [reflexivity|].
+  intros j Hj. rewrite R2 in Hj.
+  assert (Hj3: 0 <= j < Z.of_nat (length (rx_dev r3))) by (rewrite <- C2; exact Hj).
+  destruct (C7 j Hj3) as [_ C8]. specialize (C8 ltac:(rewrite C1 in R5; rewrite <- L3; lia)).
+  destruct C8 as (_ & _ & _ & _ & _ & C9).
+  assert (ER: hb_resolve_period c_DefaultHeartbeatInterval (ss_period (x_hb (get_devx r3 j))) = Some c_DefaultHeartbeatInterval) by reflexivity.
+  rewrite ER in C9. destruct C9 as [_ C9].
+  assert (EO: hb_resolve_offset 10000 (ss_offset (x_hb (get_devx r3 j))) = 10000) by reflexivity. rewrite EO in C9.
+  (* after the setter: default period and offset, enabled *)
+  assert (A4: exists nx, x_hb (get_devx r4 j) = {| ss_next := nx; ss_offset := 10000; ss_period := c_DefaultHeartbeatInterval |} /\ nx <> ss_disabled).
+  { destruct (hb_changed c_DefaultHeartbeatInterval 10000 (get_devx r3 j) || (ss_next (x_hb (get_devx r3 j)) =? ss_disabled)) eqn:Hr.
+    - change (r_sync r3) with t in C9. rewrite C9, update_at_sync by exact Hsync. eexists. split; [reflexivity|].
+      rewrite TB_val in Hsync. change ss_disabled with 18446744073709551615. lia.
+    - apply orb_false_iff in Hr. destruct Hr as [Hr1 Hr2]. rewrite C9.
+      unfold hb_changed in Hr1. rewrite ER in Hr1. change (hb_resolve_offset 10000 (ss_offset (x_hb (get_devx r3 j)))) with 10000 in Hr1.
+      apply orb_false_iff in Hr1. destruct Hr1 as [P1 P2]. apply negb_false_iff in P1, P2. apply Z.eqb_eq in P1, P2.
+      exists (ss_next (x_hb (get_devx r3 j))). split; [|apply Z.eqb_neq; exact Hr2].
+      destruct (x_hb (get_devx r3 j)) as [a b c']. cbn in *. subst. reflexivity. }
+  destruct A4 as (nx & A4 & Hnx).
+  destruct (R5 j Hj) as [_ R6]. rewrite (R6 ltac:(rewrite C1 in *; rewrite C2, L3 in Hj; lia)).
+  unfold devx_with_hb, resync_hb. cbn [x_hb]. rewrite A4. cbn [ss_next ss_period].
+  destruct (Z.eqb_spec nx ss_disabled) as [|_]; [contradiction|].
+  change (c_DefaultHeartbeatInterval =? 0) with false. cbn match. rewrite C6. apply update_at_sync. exact Hsync.
+Qed.
+Print Assumptions hb_open_resync.
